@@ -10,6 +10,7 @@ import json
 import coregen
 import corecheck
 import vf
+from checks import c07
 
 LEVEL = "model_checking"
 
@@ -49,6 +50,41 @@ def overload_programs(seed):
     decls.append({"k": "let", "n": "h", "ty": "", "annot": False,
                   "e": {"k": "call", "f": "get", "args": [{"k": "arr", "items": [I(5), I(6)]}, I(1)], "sty": "index", "sig": ["seq", "int"]}})
     progs.append({"id": "ovlget", "decls": decls, "calls": [], "lim": {"calls": -1, "depth": -1, "rec": -1, "search": -1}})
+    return progs
+
+
+def optable_programs():
+    """every strict integer / boolean / string operator on a grid of operands of both signs (and zero)"""
+    I = lambda i: {"k": "lit", "ty": "int", "v": i}
+    Bv = lambda b: {"k": "lit", "ty": "bool", "v": b}
+    S = lambda s: {"k": "lit", "ty": "str", "v": s}
+    grid = [-7, -3, -1, 0, 1, 2, 3, 7]
+    exprs = []
+    for f in ("add", "sub", "mul", "mod", "eq", "ne", "lt", "le", "gt", "ge", "cmp"):
+        for a in grid:
+            for b in grid:
+                exprs.append({"k": "call", "f": f, "args": [I(a), I(b)], "sty": "op" if f in coregen.OPS else "fn", "sig": ["int", "int"]})
+    for a in (-3, -1, 0, 1, 2, 10):
+        for b in (-1, 0, 1, 2, 3):
+            exprs.append({"k": "call", "f": "pow", "args": [I(a), I(b)], "sty": "op", "sig": ["int", "int"]})
+    for f in ("neg", "abs", "sign"):
+        for a in grid:
+            exprs.append({"k": "call", "f": f, "args": [I(a)], "sty": "fn", "sig": ["int"]})
+    for a in (True, False):
+        exprs.append({"k": "call", "f": "not", "args": [Bv(a)], "sty": "op", "sig": ["bool"]})
+        exprs.append({"k": "call", "f": "indicator", "args": [Bv(a)], "sty": "fn", "sig": ["bool"]})
+        for b in (True, False):
+            for f in ("and", "or", "eq"):
+                exprs.append({"k": "call", "f": f, "args": [Bv(a), Bv(b)], "sty": "op" if f != "eq" else "op", "sig": ["bool", "bool"]})
+    for a in ("", "a", "ab"):
+        exprs.append({"k": "call", "f": "len", "args": [S(a)], "sty": "fn", "sig": ["str"]})
+        for b in ("", "a", "b"):
+            exprs.append({"k": "call", "f": "add", "args": [S(a), S(b)], "sty": "op", "sig": ["str", "str"]})
+            exprs.append({"k": "call", "f": "eq", "args": [S(a), S(b)], "sty": "op", "sig": ["str", "str"]})
+    progs = []
+    for b in range(0, len(exprs), 50):
+        decls = [{"k": "let", "n": "o%d" % i, "ty": "", "annot": False, "e": e} for i, e in enumerate(exprs[b:b + 50])]
+        progs.append({"id": "optable%d" % b, "decls": decls, "calls": [], "lim": {"calls": -1, "depth": -1, "rec": -1, "search": -1}})
     return progs
 
 
@@ -160,7 +196,7 @@ def run(chk, tier, seed):
     for i in range(n2):
         progs.append(coregen.Gen(seed * 104729 + i, max_depth=6 if tier == "quick" else 7,
                                  n_decls=14 if tier == "quick" else 30, p_err=0.04, p_disp=0.1).program("b%d" % i))
-    progs += overload_programs(seed) + shortcircuit_programs()
+    progs += overload_programs(seed) + shortcircuit_programs() + optable_programs() + c07.error_arg_programs(limits=False)
     for b in range(0, len(progs), 1500):
         corecheck.run_core(chk, progs[b:b + 1500], "c02-%d" % b)
     chk.cov["rule"] = ("typed random programs of the core fragment (literals, operators/method/index sugar, let, "
